@@ -50,6 +50,7 @@ struct ref_result {
 	size_t stop_index;        /* global index of that event */
 	double last_time;
 	int truncated;            /* hit the safety cap: the model did not die out (generator bug) */
+	int horizon;              /* endless model: stopped on purpose some events after every predicate held */
 	uint64_t contract_breaches;
 	char breach[240]; /* the first one, for the generator-bug report */
 	struct ref_ev *global;    /* global delivery order (LP_INIT excluded) */
